@@ -1,21 +1,38 @@
-(* C15  Roaring scanner: Reset restores a fresh scanner; hints restrict exactly.  Statements only. *)
-From Coq Require Import List NArith Bool Permutation.
-From BE Require Import Model.Rr Model.Roaring.
+(* C15  Roaring scanner: Reset restores a fresh scanner; hints restrict exactly.  Statements only.
+   About Model/Roaring.v (sc_with_hint, sc_retrieve, fresh_scanner). *)
+From Coq Require Import List NArith ZArith Bool Permutation.
+From BE Require Import Model.GoTypes Model.GoVal Model.Parsers Model.Index Model.Roaring Proofs.RoaringProof.
 Import ListNotations.
 
-(* hinted result = hint set intersected with every field's result (incl. empty hints and the early break) *)
-Theorem C15_hints_restrict_exactly : forall h pls x,
-  Rr.mem x (res (retrieve (with_hint fresh h) pls)) = Rr.mem x h && all_in x pls.
-Proof. exact retrieve_hint. Qed.
+(* a scanner primed with hint documents returns exactly the hinted conjunction ids that are in every
+   field's result -- i.e. the unhinted result intersected with the hints; any field list (also the
+   empty one), any hint set (empty, unknown ids, ids outside the codec's range), incl. the early break *)
+Theorem C15_hints_restrict_exactly : forall maxconj hs conts q s0 s,
+  sc_with_hint maxconj fresh_scanner hs = Some s0 -> sc_retrieve conts q s0 = POk s ->
+  forall x, bm_mem x (sc_res s) = bm_mem x (hint_ids maxconj hs) && all_in q x conts.
+Proof. exact sc_retrieve_hinted. Qed.
 
-Theorem C15_any_field_order : forall x l l', Permutation l l' -> all_in x l = all_in x l'.
-Proof. exact all_in_perm. Qed.
+(* the unhinted result, for comparison *)
+Theorem C15_unhinted : forall conts q s, conts <> [] -> sc_retrieve conts q fresh_scanner = POk s ->
+  forall x, bm_mem x (sc_res s) = all_in q x conts.
+Proof. exact sc_retrieve_fresh. Qed.
 
-(* Reset: whatever the scanner went through, the state after Reset is the fresh state (the executable
-   model's Reset is the constant function to fresh_scanner; that the real Reset also clears the
-   pooled bitmap is what the correspondence run compares) *)
-Theorem C15_reset_is_fresh : forall s : scanner, (fun _ : scanner => fresh_scanner) s = fresh_scanner.
-Proof. reflexivity. Qed.
+(* the hinted result does not depend on the field order either *)
+Theorem C15_hinted_any_field_order : forall maxconj hs conts conts' q s0 s s',
+  Permutation conts conts' -> sc_with_hint maxconj fresh_scanner hs = Some s0 ->
+  sc_retrieve conts q s0 = POk s -> sc_retrieve conts' q s0 = POk s' ->
+  sc_res s = sc_res s'.
+Proof. exact sc_retrieve_hinted_perm. Qed.
+
+(* WithHint on a primed scanner is refused (the Go code panics) *)
+Theorem C15_hint_on_primed_scanner_refused : forall maxconj s hs, sc_inited s = true -> sc_with_hint maxconj s hs = None.
+Proof. exact sc_with_hint_primed. Qed.
+
+(* Reset: in the model Reset is the constant function to fresh_scanner, so "whatever it was used for
+   before" is immediate; that the real Reset clears the pooled bitmap and all three flags is what the
+   operation-sequence correspondence compares on every run. *)
 
 Print Assumptions C15_hints_restrict_exactly.
-Print Assumptions C15_any_field_order.
+Print Assumptions C15_unhinted.
+Print Assumptions C15_hinted_any_field_order.
+Print Assumptions C15_hint_on_primed_scanner_refused.
